@@ -3,10 +3,12 @@
 
   One public call of thread `t` is the sequence of actions
 
-      sample t n raw     the platform function returns `raw` — OUTSIDE the lock. This is an explicit
-                         modelling statement: which snapshot a call works on is decided here, before
-                         the thread competes for the lock, so the lock order need not be the order in
-                         which the kernel was sampled (stated limit of the property).
+      sample t n raw     the platform function returns `raw`. `Cfg.sampleUnderLock = false` (the code
+                         before fixes/C10-sample-under-lock): OUTSIDE any lock — which snapshot a call
+                         works on is decided before the thread competes for `_wn.lock`, so the lock
+                         order need not be the order in which the kernel was sampled (finding
+                         C10-sample-outside-lock). `sampleUnderLock = true`: inside the front ends'
+                         sampling lock (`Sys.outer`), held until the body is done.
       acquire t          `with _wn.lock:` / `with self.lock:` entered (only if nobody holds it)
       load t             the body starts: it reads the shared dicts (here: takes a copy)
       store t            the body ends: it has written the shared dicts and has its return value
@@ -38,12 +40,23 @@ inductive Act
 
 structure Sys where
   st : St
-  lock : Option Nat                 -- holder
+  lock : Option Nat                 -- holder of `_wn.lock`
   pc : Nat → PC
   log : List (Nat × Op)             -- bodies in the order they took the lock (newest last)
   outs : List (Nat × Out)           -- return values in the order the bodies finished
+  /-- holder of the front ends' sampling lock (`Cfg.sampleUnderLock` only): taken together with the
+      sample, given back together with `_wn.lock` at the end of the call's body. (In the code it is
+      taken just before the platform call and released just after `wrap_numbers` returns; nothing
+      another thread can observe lies in between, so the two pairs of events are merged — this only
+      adds behaviours to the model.) `cache_clear` never takes it. -/
+  outer : Option Nat := none
+  /-- ghost: the raw kernel snapshots in the order they were TAKEN (as the calls they belong to) -/
+  samples : List (Nat × Op) := []
 
-def Sys.init : Sys := ⟨St.init, none, fun _ => .idle, [], []⟩
+def Sys.init : Sys := ⟨St.init, none, fun _ => .idle, [], [], none, []⟩
+
+/-- the sampling lock after thread `t` has left a body -/
+def relOuter (s : Sys) (t : Nat) : Option Nat := if s.outer = some t then none else s.outer
 
 def setPc (pc : Nat → PC) (t : Nat) (v : PC) : Nat → PC := fun u => if u = t then v else pc u
 
@@ -60,7 +73,12 @@ def guarded (cfg : Cfg) : Op → Bool
 def stepC (cfg : Cfg) (s : Sys) : Act → Option Sys
   | .sample t n raw =>
     match s.pc t with
-    | .idle => some { s with pc := setPc s.pc t (.want (.call n true raw)) }
+    | .idle =>
+      -- with `sampleUnderLock` the platform call happens inside `with <sampling lock>:`
+      if cfg.sampleUnderLock && s.outer.isSome then none
+      else some { s with pc := setPc s.pc t (.want (.call n true raw))
+                         outer := if cfg.sampleUnderLock then some t else s.outer
+                         samples := s.samples ++ [(t, .call n true raw)] }
     | _ => none
   | .wantClear t n =>
     match s.pc t with
@@ -88,8 +106,8 @@ def stepC (cfg : Cfg) (s : Sys) : Act → Option Sys
     | _ => none
   | .release t =>
     match s.pc t with
-    | .stored true => some { s with lock := none, pc := setPc s.pc t .idle }
-    | .stored false => some { s with pc := setPc s.pc t .idle }
+    | .stored true => some { s with lock := none, pc := setPc s.pc t .idle, outer := relOuter s t }
+    | .stored false => some { s with pc := setPc s.pc t .idle, outer := relOuter s t }
     | _ => none
 
 def runC (cfg : Cfg) (s : Sys) : List Act → Option Sys
